@@ -17,6 +17,8 @@ def key_fn(case, obs, verdict):
         return "engine:%s:%s" % (f[1], why)
     if f[0] == "signal":
         return "signal:%s" % why                     # e.g. signal:exit-before-aggregator-close
+    if f[0] == "fail":
+        return "failed-run:%s" % why                 # the cli's "engine returned an error" exit path
     if f[0] == "line":
         return "line:ids-%s:%s" % ("on" if f[1] == "1" else "off", why)
     return "%s:%s" % (f[0], why)
@@ -27,6 +29,9 @@ def what_fn(case, obs, verdict):
     if f[0] == "signal":
         info = obs.split("info:", 1)[1] if "info:" in obs else ""
         return "pandora stopped with SIG%s after %s ms: %s (%s)" % (f[1], f[2], verdict, info)
+    if f[0] == "fail":
+        info = obs.split("info:", 1)[1] if "info:" in obs else ""
+        return "pandora run failing at shot %s (gun fault): %s (%s)" % (f[1], verdict, info)
     return verdict
 
 
@@ -50,7 +55,7 @@ def build_pandora_verif(ctx):
 
 
 RULE = ("non-trivial: line/setters cases inside the guard of C06_line_roundtrip; aggr/engine cases with at least 2 reports; "
-        "signal shots in which at least one report was complete before the cancel; distinct = distinct case lines")
+        "signal / failed-run shots in which at least one report was complete before the cancel; distinct = distinct case lines")
 TRUSTED = [
     "translator harness/cmd/translate phout (field keys compiled from /repo through the verif hook; go/ast pattern over cli.awaitPandoraTermination for gen_cli_signal_waits)",
     "extraction: ExtrOcamlBasic only; OCaml driver ocaml/C06/main.ml + ocaml/common/conv.ml (zarith for decimal I/O; sample-of-id function duplicated from the Go harness; lazy-receive schedule reconstruction for trace acceptance)",
@@ -93,6 +98,7 @@ def run(ctx):
             if ctx.brokens and not ctx.violations and not ctx.known_hits and ctx.quick() and not ctx.replay:
                 # a proof, bridge or the correspondence no longer checks: widen the search for a concrete failing input
                 os.environ["C06_SIGNAL_SHOTS"] = "12"
+                os.environ["C06_FAIL_SHOTS"] = "6"
                 st2 = common.correspondence(ctx, h, m, key_fn=key_fn, what_fn=what_fn, tier="thorough", label="escalated")
                 if st2:
                     cov["escalated_evaluations"] = st2["evaluations"]
